@@ -145,11 +145,21 @@ def impl(case):
             traj.split(2)
         pos3, disp3, cum3, dist3, _ = _obs(traj)
         same3 = bool(np.array_equal(pos, pos3) and np.array_equal(disp, disp3) and np.array_equal(cum, cum3) and np.allclose(dist, dist3, rtol=1e-12, atol=1e-12))
+        # a slice that starts after frame 0, asked for displacements and then for positions: its frames are the parent's frames
+        slice_ok = True
+        if nfr >= 3:
+            ks = 1 + (nfr - 2) // 2
+            sl = traj[ks:]
+            _ = np.array(sl.displacements)
+            slice_ok = bool(np.array_equal(np.array(sl.positions), pos[ks:]))
+            sl2 = traj[::2]
+            _ = np.array(sl2.cumulative_displacements)
+            slice_ok = slice_ok and bool(np.array_equal(np.array(sl2.positions), pos[::2]))
         # a fresh object asked for the displacement-based quantities FIRST (before any positions query wrapped its coordinates)
         fresh = synth.make_traj(m, ['Li'] * arr.shape[1], arr, rot=rot, mode='asis')
         cum_first = np.array(fresh.cumulative_displacements)
         dist_first = np.array(fresh.distances_from_base_position())
-        out[name] = {'cum_first': (cum_first * DEN).transpose(1, 2, 0).tolist(), 'dist_first': dist_first.tolist(), 'after_derived_same': same3, 'pos': (pos * DEN).transpose(1, 2, 0).tolist(), 'disp': (disp * DEN).transpose(1, 2, 0).tolist(),
+        out[name] = {'slice_ok': slice_ok, 'cum_first': (cum_first * DEN).transpose(1, 2, 0).tolist(), 'dist_first': dist_first.tolist(), 'after_derived_same': same3, 'pos': (pos * DEN).transpose(1, 2, 0).tolist(), 'disp': (disp * DEN).transpose(1, 2, 0).tolist(),
                      'cum': (cum * DEN).transpose(1, 2, 0).tolist(), 'dist': dist.tolist(),
                      'pos2_same': bool(np.array_equal(pos, pos2))}
     return out
@@ -213,6 +223,8 @@ def oracle(case, out):
                        f'{want_d[tuple(bad)]} (lattice {case["m"]}, rotated={case["rot"]})'))
         if not o['pos2_same']:
             fs.append(('positions/second-read-differs', 'positions changed after reading displacements / distances'))
+        if o.get('slice_ok') is False:
+            fs.append(('positions/slice-differs-from-parent', 'a slice starting after the first frame (or a strided one), asked for displacements and then for positions, does not return the frames of its parent'))
         if not o.get('after_derived_same', True):
             fs.append(('positions/changed-by-derived-call', 'positions / displacements / cumulative displacements / distances of a trajectory changed after '
                        'apply_drift_correction(), center_of_mass(), filter(), mean_squared_displacement(), slicing or split() were called on it'))
